@@ -57,6 +57,7 @@ PREDICATE_OPTION = {
 
 _models: dict = {}
 SKIPPED_NOPRED: list = []
+MIXED_STAGE: dict = {}  # (paired) -> [step slots whose predicate and destination belong to different filter options]
 
 
 def model(repo, paired):
@@ -384,10 +385,24 @@ def _step_entries(repo, m):
                 raise Unrecognised(f"step slot {s.key[:80]} is switched by option(s) {unknown or 'none'} that the documented filter order does not mention", f"src/cutadapt/cli.py:{getattr(s.node, 'lineno', 0)}")
             stages = {STEP_STAGE[d] for d in sd}
             if len(stages) != 1:
-                raise Unrecognised(f"step slot {s.key[:80]} mixes options of different filter stages {sorted(sd)}")
+                # a recognised slot, wired wrongly: reported as a violation of C11.R4 / C05.R5 by mixed_stage_obligation()
+                lst = MIXED_STAGE.setdefault(id(m), [])
+                item = {"slot": s.key[:110], "options": sorted(sd), "line": getattr(s.node, "lineno", 0)}
+                if item not in lst:
+                    lst.append(item)
+                continue
             stage = stages.pop()
         out.append({"bi": bi, "ri": ri, "pos": pos, "val": val, "slot": s, "stage": stage, "kind": kind, "sd": sd, "preds": preds, "inner": inner, "outer": outer})
     return out
+
+
+def mixed_stage_obligation(repo, report, rule, m, mode):
+    """each filter step takes its predicate(s) and its destination from the options of ONE filter"""
+    _step_entries(repo, m)
+    mixed = MIXED_STAGE.get(id(m), [])
+    report.ob(rule, f"{mode}:every filter step is built from the options of one filter", not mixed, facts={"mixed": mixed[:3]},
+              expected="e.g. PairedEndFilter(TooLong(...), TooLong(...), writer for --too-long-output): predicate class, threshold option and destination belong together", loc="src/cutadapt/cli.py",
+              why=(f"the step {mixed[0]['slot']} combines {mixed[0]['options']}: a predicate left over from another filter is applied" if mixed else ""))
 
 
 def c11_builder(repo, report, tier):
@@ -404,6 +419,7 @@ def c11_builder(repo, report, tier):
             report.unrecognised("C11.R1", f"{mode}:steps", u.what, u.loc)
             continue
         report.saw(function="cli.make_pipeline_from_args", file="src/cutadapt/cli.py", paths=sum(len(b.rows) for b in m.blocks))
+        mixed_stage_obligation(repo, report, "C11.R4", m, mode)
         report.floor("C11.R1", f"step slot kinds ({mode})", len({(e["stage"], e["inner"]) for e in entries}), 12)
         # order
         conflicts = {}
@@ -679,6 +695,7 @@ def _g(val):
 def c05_r5_lengths(repo, report, tier):
     """LEN:LEN2 -> predicates: missing side gives None; a single value in paired mode is duplicated."""
     m = model(repo, True)
+    mixed_stage_obligation(repo, report, "C05.R5", m, "paired")
     entries = [e for e in _step_entries(repo, m) if e["outer"] == "PairedEndFilter" and set(e["preds"]) & {"TooShort", "TooLong"}]
     bad = []
     n = 0
